@@ -1482,6 +1482,37 @@ func genVectorN(h *Handler, r *vh.Rng, k int) Spec {
 			x.offset13 = uint32(r.Intn(64)-16) & 0x1fff
 		}
 	}
+	// Scalar destination overlapping a scalar source (v_cmp_lt_u32 s[4:5], s4, v1 - compilers do reuse the
+	// pair): a handler that builds its mask in place in the destination inside the lane loop, or reads a
+	// uniform source after it started writing the destination, makes lanes depend on each other only for
+	// such register assignments.  Every handler with a scalar destination (VOP3a compares, all VOP3b forms)
+	// gets scheduled cases k = 1, 5, 9, .. (variant (k/4)%3: source = low register of the destination pair,
+	// = high register, both sources inside the pair resp. destination = the carry-in mask pair) and a
+	// quarter of the unscheduled ones.
+	overlap := -1
+	if ((h.Fmt == "vop3a" && h.Opcode <= 255) || h.Fmt == "vop3b") && !h.Excpt {
+		if k >= 0 && k%4 == 1 {
+			overlap = (k / 4) % 3
+		} else if k < 0 && r.Intn(4) == 0 {
+			overlap = r.Intn(3)
+		}
+	}
+	if overlap >= 0 {
+		b := uint32(2 * r.Intn(9))
+		x.sdst = b
+		switch {
+		case overlap == 2 && sp.Mask >= 0:
+			x.sdst = uint32(sp.Mask)
+		case overlap == 2 && x.src2 == srcVCC && maskSrcOps[key]:
+			x.sdst = srcVCC
+		case overlap == 2:
+			x.src0, x.src1 = b, b+1
+		case r.Intn(2) == 0:
+			x.src0 = b + uint32(overlap)
+		default:
+			x.src1 = b + uint32(overlap)
+		}
+	}
 	sp.Words = encode(h.Fmt, op, x)
 	// combined 16-bit DS offsets must stay small
 	if inst, err := decode(&sp); err == nil {
@@ -1499,6 +1530,15 @@ func genVectorN(h *Handler, r *vh.Rng, k int) Spec {
 				specialValues(&sp, inst, r, k)
 			} else if r.Intn(4) == 0 {
 				specialValues(&sp, inst, r, -1)
+			}
+		}
+		if overlap >= 0 && r.Intn(2) == 0 {
+			// small values next to the accumulating mask bits, so that "compare against what lower lanes left
+			// in the destination" changes outcomes
+			for l := range sp.VGPR {
+				for q := range sp.VGPR[l] {
+					sp.VGPR[l][q] = uint32(r.Intn(6))
+				}
 			}
 		}
 		if inst != nil && (h.Fmt == "flat" || h.Fmt == "ds") && !h.Excpt {
